@@ -236,7 +236,7 @@ type c14ctx struct {
 
 type c14stats struct {
 	bindings, tables, wrappers, constants, names int
-	samples                                     []map[string]string
+	samples                                      []map[string]string
 }
 
 func (x *c14ctx) pass(rule, key, pos, detail string) {
